@@ -229,7 +229,7 @@ type C16Conc struct {
 
 func genC16Conc() *rapid.Generator[C16Conc] {
 	return rapid.Custom(func(t *rapid.T) C16Conc {
-		c := C16Conc{Engine: rapid.SampledFrom([]string{"leveldb-mem", "leveldb-disk"}).Draw(t, "engine"), NRows: rapid.IntRange(150, 450).Draw(t, "nrows"),
+		c := C16Conc{Engine: rapid.SampledFrom([]string{"leveldb-mem", "leveldb-disk", "btree"}).Draw(t, "engine"), NRows: rapid.IntRange(150, 450).Draw(t, "nrows"),
 			Condemn: rapid.SampledFrom([]int{1, 2, 3, 7}).Draw(t, "condemn")}
 		for w, nw := 0, rapid.IntRange(1, 3).Draw(t, "writers"); w < nw; w++ {
 			c.Writers = append(c.Writers, rapid.SliceOfN(rapid.Custom(func(t *rapid.T) C16Write {
@@ -441,6 +441,6 @@ func runC16Conc(c C16Conc, ev *vt.Ev) *vt.Failure {
 
 func TestC16Conc(t *testing.T) {
 	vt.Prop[C16Conc]{ID: "C16", Test: "TestC16Conc",
-		Rule: "owned schedule: a forced GC pass over 150-450 rows (leveldb engines; the pass gives up the table lock every 100 rows, where it is parked at the guarded yield point gc.unlocked) against 1-3 client goroutines with 1-4 acknowledged writes each (retained SetCell, condemned SetCell, DeleteFromRow, ReadModifyWrite increment) on rows before / at / after the pass position or new rows; a rapid-drawn choice list decides in which hand-over window each write runs; every write must be acknowledged and the pass must end (bounded progress); oracle per row: final content = writes[:k]; collect; writes[k:] for some k (no acknowledged write lost or reverted, deleted rows stay deleted); non-trivial = a write acknowledged inside a window to a row that the pass changes",
+		Rule: "owned schedule: a forced GC pass over 150-450 rows (all three engines; the btree engine iterates a snapshot since fix c0aecb3; the pass gives up the table lock every 100 rows, where it is parked at the guarded yield point gc.unlocked) against 1-3 client goroutines with 1-4 acknowledged writes each (retained SetCell, condemned SetCell, DeleteFromRow, ReadModifyWrite increment) on rows before / at / after the pass position or new rows; a rapid-drawn choice list decides in which hand-over window each write runs; every write must be acknowledged and the pass must end (bounded progress); oracle per row: final content = writes[:k]; collect; writes[k:] for some k (no acknowledged write lost or reverted, deleted rows stay deleted); non-trivial = a write acknowledged inside a window to a row that the pass changes",
 		Gen:  genC16Conc(), Run: runC16Conc}.Main(t)
 }
